@@ -140,3 +140,27 @@ def build4(m):
                             # ... and what is appended is one script line (decided on the literal of this tree)
                             ('True' if one_line else 'False', 'C18')],
                    prop=['C18']))
+
+
+def build5(m):
+    """HtmlRenderer.render_table_cell (C03 alignment, C01 no unbound local, C08 tag choice): a cell's
+    alignment value - None, 0 or 1 by Table.parse_align - becomes left / center / right."""
+    HMOD = 'mistletoe.html_renderer'
+    R = TRef('HtmlR')
+    CT = TRef('HCellTok')
+    m.classes['HCellTok'] = {'align': TOpt(INT), 'children': TList(TRef('RTok'))}
+    m.methods[('HtmlR', 'render_inner')] = 'protocol:HtmlRenderer.render_inner'
+    m.add(Contract('protocol:HtmlRenderer.render_inner', [('self', R), ('token', CT)], returns=STR, trusted=True, pure=True,
+                   note='the rendering of the children (dispatch through render_map), a string'))
+    m.add(Contract(HMOD + ':HtmlRenderer.render_table_cell', [('self', R), ('token', CT), ('in_header', BOOL, mk_bool(False))],
+                   returns=STR,
+                   # the range Table.parse_align is proved to return (Table.parse_align:post:0)
+                   requires=['is_none(token.align) or some(token.align) == 0 or some(token.align) == 1'],
+                   ensures=[("result.startswith('<th align=\"' if in_header else '<td align=\"')", ['C03', 'C08']),
+                            ("implies(is_none(token.align), result.startswith('<th align=\"left\">' if in_header else '<td align=\"left\">'))", 'C03'),
+                            ("implies(not is_none(token.align) and some(token.align) == 0, "
+                             "result.startswith('<th align=\"center\">' if in_header else '<td align=\"center\">'))", 'C03'),
+                            ("implies(not is_none(token.align) and some(token.align) == 1, "
+                             "result.startswith('<th align=\"right\">' if in_header else '<td align=\"right\">'))", 'C03'),
+                            ("result.endswith('</th>\\n' if in_header else '</td>\\n')", ['C03', 'C08'])],
+                   prop=['C03', 'C01']))
